@@ -627,4 +627,537 @@ Section Safety.
       * intros HD _ i sh Hn Hne. destruct (Huniq _ _ Hn Hne HD) as (-> & ->).
         destruct (Hka _ _ _ H0) as (_ & K2). auto.
   Qed.
+
+  (* ---- start-up ---------------------------------------------------------------------------------- *)
+  Lemma last_height m last j :
+    core m last j -> j <> O -> s_height last = g_initial g + N.of_nat j - 1.
+  Proof.
+    intros (Hj & _ & _ & Hl & _) Hne. cbn [n_last] in Hl. destruct j as [|j0]; [congruence|].
+    assert (Hlt : (j0 < length C)%nat) by lia.
+    apply nth_error_Some in Hlt. destruct (nth_error C j0) as [[sh d]|] eqn:Hn; [|congruence].
+    rewrite (state_after_S exec _ _ _ _ Hn) in Hl. subst last.
+    destruct (chain_block _ _ _ Hn) as (Hh & _). unfold next_of, next_state; cbn. lia.
+  Qed.
+
+  Lemma height_put_block m n v : d_height (kv_put m (block_key n) v) = d_height m.
+  Proof. reflexivity. Qed.
+  Lemma state_put_block m n v : d_state (kv_put m (block_key n) v) = d_state m.
+  Proof. reflexivity. Qed.
+  Lemma block_put_block m n v n' :
+    d_block (kv_put m (block_key n) v) n' = if n' =? n then match v with VBlock sh d => Some (sh, d) | _ => None end else d_block m n'.
+  Proof. unfold d_block. cbn [kv_put kv_get]. rewrite block_key_eqb. destruct (n' =? n); reflexivity. Qed.
+
+  (* putting a block record at or above the next height does not disturb what is applied *)
+  Lemma core_put_block m last j n sh d :
+    core m last j -> g_initial g + N.of_nat j <= n -> core (kv_put m (block_key n) (VBlock sh d)) last j.
+  Proof.
+    intros (Hj & Hh & Hb & Hl & Hs & Hs0) Hn. cbn [n_disk n_last] in *.
+    unfold core, synced_to; cbn [n_disk n_last]. rewrite height_put_block, state_put_block.
+    repeat split; auto. intros i Hi. rewrite block_put_block.
+    destruct (N.eqb_spec (g_initial g + N.of_nat i) n); [lia|auto].
+  Qed.
+
+  (* an image from which NewManager's own writes lead to "exactly j blocks applied", j >= j0 *)
+  Definition pre_core (j0 : nat) (m : img) : Prop :=
+    exists s ws j, boot_writes g m = Some (s, ws) /\ (j0 <= j)%nat /\ core (apply_writes m ws) s j.
+
+  Lemma pre_core_mono j0 j1 m : (j0 <= j1)%nat -> pre_core j1 m -> pre_core j0 m.
+  Proof. intros Hle (s & ws & j & E & Hj & Hc). exists s, ws, j. split; [exact E|split; [lia|exact Hc]]. Qed.
+
+  (* start-up on an image with exactly j applied blocks: no write unless nothing was ever applied *)
+  Lemma boot_core m last j :
+    core m last j ->
+    exists s ws, boot_writes g m = Some (s, ws) /\ core (apply_writes m ws) s j /\
+                 forall q, exists s', core (crash_after q m ws) s' j.
+  Proof.
+    intros Hcore. pose proof Hcore as (Hj & Hh & Hb & Hl & Hs & Hs0). cbn [n_disk n_last] in *.
+    pose proof init_pos as Hi. unfold boot_writes.
+    destruct j as [|j0].
+    - rewrite (Hs0 eq_refl). cbn [genesis_state s_height].
+      replace (g_initial g - 1 <=? d_height m) with true by (symmetry; apply N.leb_le; lia).
+      assert (Hc0 : core m s0 O).
+      { unfold core, synced_to; cbn [n_disk n_last]. repeat split; auto; try lia; try (intros i Hlt; lia).
+        destruct C; reflexivity. }
+      eexists _, _. split; [reflexivity|]. rewrite app_nil_r.
+      cbn [apply_writes fold_left apply_write apply_prim].
+      split; [apply core_put_block; [exact Hc0|lia]|].
+      intros [|q]; exists s0; unfold crash_after; cbn [firstn apply_writes fold_left]; [exact Hc0|].
+      rewrite firstn_nil. cbn [fold_left apply_write apply_prim]. apply core_put_block; [exact Hc0|lia].
+    - rewrite (Hs ltac:(discriminate)).
+      pose proof (last_height _ _ _ Hcore ltac:(discriminate)) as Hlh.
+      replace (s_height last <? g_initial g) with false by (symmetry; apply N.ltb_ge; lia).
+      replace (s_height last <=? d_height m) with true by (symmetry; apply N.leb_le; lia).
+      eexists _, _. split; [reflexivity|]. split; [exact Hcore|].
+      intros q. exists last. unfold crash_after. rewrite firstn_nil. exact Hcore.
+  Qed.
+
+  Lemma core_pre m last j : core m last j -> pre_core j m.
+  Proof. intros Hc. destruct (boot_core _ _ _ Hc) as (s & ws & E & Hc' & _). exists s, ws, j. auto. Qed.
+
+  Lemma block_writes_eq m last j sh d new :
+    core m last j -> nth_error C j = Some (sh, d) ->
+    block_writes m new sh d =
+    [ WBatch [Put (block_key (h_height (sh_hdr sh))) (VBlock sh d)]; W1 (Put state_key (VState new));
+      W1 (Put height_key (VHeight (h_height (sh_hdr sh)))) ].
+  Proof.
+    intros (_ & Hh & _) Hn. cbn [n_disk] in Hh. pose proof init_pos.
+    destruct (chain_block _ _ _ Hn) as (Hhh & _).
+    unfold block_writes.
+    replace (h_height (sh_hdr sh) <=? d_height m) with false by (symmetry; apply N.leb_gt; lia).
+    reflexivity.
+  Qed.
+
+  (* block and state of the next application written, height not yet: start-up raises the height *)
+  Lemma mid_pre m last j sh d :
+    core m last j -> nth_error C j = Some (sh, d) ->
+    pre_core (S j) (apply_writes m [ WBatch [Put (block_key (h_height (sh_hdr sh))) (VBlock sh d)];
+                                     W1 (Put state_key (VState (next_of exec last (sh, d)))) ]).
+  Proof.
+    intros Hc Hn.
+    destruct (core_step _ _ _ _ _ Hc Hn) as (_ & Hc').
+    remember (next_of exec last (sh, d)) as new eqn:Hnew.
+    rewrite (block_writes_eq _ _ _ _ _ new Hc Hn) in Hc'.
+    pose proof (last_height _ _ _ Hc' ltac:(discriminate)) as Hlh.
+    destruct Hc as (_ & Hh & _). cbn [n_disk] in Hh. pose proof init_pos.
+    cbn [apply_writes fold_left apply_write apply_prim] in *.
+    set (m' := kv_put (kv_put m (block_key (h_height (sh_hdr sh))) (VBlock sh d)) state_key (VState new)) in *.
+    assert (Hs' : d_state m' = Some new) by reflexivity.
+    assert (Hh' : d_height m' = d_height m) by reflexivity.
+    assert (Hsh : s_height new = h_height (sh_hdr sh)) by (subst new; reflexivity).
+    exists new, [W1 (Put height_key (VHeight (h_height (sh_hdr sh))))], (S j).
+    split; [|split; [lia|exact Hc']].
+    unfold boot_writes. rewrite Hs', Hh'.
+    replace (s_height new <? g_initial g) with false by (symmetry; apply N.ltb_ge; lia).
+    replace (s_height new <=? d_height m) with false by (symmetry; apply N.leb_gt; lia).
+    rewrite Hsh. reflexivity.
+  Qed.
+
+  (* every prefix of the writes of trySyncNextBlock is an image from which start-up recovers *)
+  Lemma try_sync_crash fuel : forall st j W,
+    core (l_disk st) (l_last st) j -> cache_ok (l_cache st) -> l_status st = Running ->
+    (length (c_hdrs (l_cache st)) < fuel)%nat -> l_ws st = W ->
+    exists ws, l_ws (try_sync exec fuel st) = W ++ ws /\
+      forall q, pre_core j (crash_after q (l_disk st) ws).
+  Proof.
+    induction fuel as [|f IH]; intros st j W Hcore Hc Hst Hfuel HW; [lia|].
+    cbn [try_sync].
+    assert (Hnone : exists ws, l_ws st = W ++ ws /\ forall q, pre_core j (crash_after q (l_disk st) ws)).
+    { exists []. rewrite app_nil_r. split; [exact HW|]. intros q. unfold crash_after.
+      rewrite firstn_nil. cbn. eapply core_pre; exact Hcore. }
+    destruct (lookup (c_hdrs (l_cache st)) (d_height (l_disk st) + 1)) as [sh|] eqn:L1; [|exact Hnone].
+    destruct (lookup (c_data (l_cache st)) (d_height (l_disk st) + 1)) as [d|] eqn:L2; [|exact Hnone].
+    clear Hnone.
+    pose proof (next_block _ _ _ _ _ _ Hcore Hc L1 L2) as Hn.
+    destruct (core_step _ _ _ _ _ Hcore Hn) as (Hval & Hcore').
+    rewrite Hval.
+    pose proof (mid_pre _ _ _ _ _ Hcore Hn) as Hmid.
+    unfold next_of in Hcore', Hmid; cbn [fst snd] in Hcore', Hmid.
+    set (new := next_state (l_last st) (sh_hdr sh)
+                  (exec (s_app (l_last st)) (h_height (sh_hdr sh)) (h_time (sh_hdr sh)) (d_txs d))) in *.
+    pose proof (block_writes_eq _ _ _ _ _ new Hcore Hn) as Hbw.
+    destruct (chain_block _ _ _ Hn) as (Hhh & _).
+    match goal with |- context [try_sync exec f ?st'] =>
+      destruct (IH st' (S j) (W ++ block_writes (l_disk st) new sh d)) as (ws' & Hws' & Hboot') end.
+    - exact Hcore'.
+    - cbn. apply cache_ok_after; exact Hc.
+    - reflexivity.
+    - cbn. pose proof (remove_shrinks _ _ _ L1). lia.
+    - cbn. rewrite HW. reflexivity.
+    - exists (block_writes (l_disk st) new sh d ++ ws'). split; [rewrite Hws', app_assoc; reflexivity|].
+      cbn [l_disk] in Hboot'. rewrite Hbw in *.
+      intros q. unfold crash_after.
+      destruct q as [|[|[|q]]].
+      + cbn. eapply core_pre; exact Hcore.
+      + cbn [firstn app apply_writes fold_left apply_write apply_prim].
+        eapply core_pre. apply core_put_block; [exact Hcore|lia].
+      + cbn [firstn app]. apply (pre_core_mono j (S j)); [lia|exact Hmid].
+      + specialize (Hboot' q). unfold crash_after in Hboot'. cbn [firstn app].
+        apply (pre_core_mono j (S j)); [lia|]. exact Hboot'.
+  Qed.
+
+  (* a new process on an image from which start-up recovers *)
+  Lemma boot_good j0 m files log :
+    pre_core j0 m -> cache_ok files ->
+    exists j', (j0 <= j')%nat /\ Inv (fst (boot exec g m files log)) j' /\
+      n_files (fst (boot exec g m files log)) = files /\
+      fixp (n_cache (fst (boot exec g m files log))) (n_disk (fst (boot exec g m files log))) /\
+      keeps files j0 (n_cache (fst (boot exec g m files log))) j' /\
+      (Distinct -> seen_ok files j0 -> seen_ok (n_cache (fst (boot exec g m files log))) j') /\
+      (forall s ws j, boot_writes g m = Some (s, ws) -> core (apply_writes m ws) s j ->
+         forall L, log = L ++ calls j -> n_log (fst (boot exec g m files log)) = L ++ calls j').
+  Proof.
+    intros (s & ws & j & E & Hj & Hcore) Hf. unfold boot. rewrite E.
+    match goal with |- context [try_sync exec ?f ?st] =>
+      destruct (try_sync_inv f st j) as (j' & Hle & Hcore' & Hcc & Hlog' & Hst' & Hfix & Hk & Hs); auto;
+      set (R := try_sync exec f st) in * end.
+    cbn [fst n_status n_disk n_last n_cache n_files n_log l_cache l_log] in *.
+    exists j'. split; [lia|]. split; [split; [exact Hst'|split; [exact Hcore'|split; assumption]]|].
+    split; [reflexivity|]. split; [exact Hfix|].
+    split; [eapply keeps_trans; [apply (keeps_mono files j0 j); exact Hj|exact Hk]|].
+    split; [intros HD Hs0; apply Hs; [exact HD|]; eapply seen_ok_mono; eauto|].
+    intros s2 ws2 j2 E2 Hc2 L HL. inversion E2; subst s2 ws2.
+    rewrite (core_unique _ _ _ _ _ Hc2 Hcore) in HL. auto.
+  Qed.
+
+  (* every prefix of the writes of a start is again an image from which start-up recovers *)
+  Lemma boot_crash m last j files log q :
+    core m last j -> cache_ok files -> pre_core j (crash_after q m (snd (boot exec g m files log))).
+  Proof.
+    intros Hcore Hf. destruct (boot_core _ _ _ Hcore) as (s & ws & E & Hc' & Hq).
+    unfold boot. rewrite E. cbn [snd].
+    match goal with |- context [try_sync exec ?f ?st] =>
+      destruct (try_sync_crash f st j []) as (tws & Htws & Hboot); auto end.
+    cbn [app] in Htws. rewrite Htws. cbn [l_disk] in Hboot.
+    unfold crash_after. unfold wr in *. rewrite firstn_app, apply_writes_app.
+    destruct (Nat.ltb_spec q (length ws)) as [Hlt|Hge].
+    - replace (q - length ws)%nat with O by lia. cbn [firstn apply_writes fold_left].
+      destruct (Hq q) as (s' & Hcq). eapply core_pre. exact Hcq.
+    - rewrite firstn_all2 by lia. apply Hboot.
+  Qed.
+
+  (* ---- every kind of step ---------------------------------------------------------------------- *)
+  Definition Good (nd : node) (j : nat) : Prop :=
+    Inv nd j /\ fixp (n_cache nd) (n_disk nd) /\
+    (Distinct -> seen_ok (n_cache nd) j /\ seen_ok (n_files nd) j).
+
+  Lemma process_pre nd j e q :
+    Inv nd j -> ev_in C e -> pre_core j (crash_after q (n_disk nd) (snd (process exec nd e))).
+  Proof.
+    intros HI Hev. pose proof HI as (Hst & Hcore & Hc & Hf).
+    assert (Hskip : forall ws, ws = [] -> pre_core j (crash_after q (n_disk nd) ws)).
+    { intros ws ->. unfold crash_after. rewrite firstn_nil. cbn. eapply core_pre; exact Hcore. }
+    assert (Hloop : forall c mark, cache_ok c ->
+              pre_core j (crash_after q (n_disk nd) (snd (finish nd (start_loop exec nd c) mark)))).
+    { intros c mark Hc'. unfold finish, start_loop. cbn [snd].
+      match goal with |- context [try_sync exec ?f ?st] =>
+        destruct (try_sync_crash f st j []) as (ws & Hws & Hboot); auto end.
+      cbn [app] in Hws. rewrite Hws. apply Hboot. }
+    unfold process. rewrite Hst.
+    destruct e as [sh da | d da].
+    - destruct Hev as (d0 & Hin). apply In_nth_error in Hin as (i0 & H0).
+      destruct (chain_block _ _ _ H0) as (Hh & Htx & Hm).
+      unfold on_header.
+      destruct ((h_height (sh_hdr sh) <=? d_height (n_disk nd)) || hseen (n_cache nd) (sh_hdr sh));
+        [apply Hskip; reflexivity|].
+      apply Hloop. rewrite Hh.
+      destruct (is_empty_commitment (h_data (sh_hdr sh))) eqn:He.
+      + assert (He' : d_txs d0 = []) by (rewrite Htx; destruct (h_data (sh_hdr sh)); [reflexivity|discriminate He]).
+        rewrite (empty_data_eq _ _ _ H0 He').
+        eapply cache_ok_set_data; eauto; eapply cache_ok_set_hdr; eauto.
+      + eapply cache_ok_set_hdr; eauto.
+    - destruct Hev as (sh0 & Hin). apply In_nth_error in Hin as (i0 & H0).
+      destruct (chain_block _ _ _ H0) as (Hh & Htx & Hm).
+      unfold on_data. rewrite Hm.
+      destruct (d_txs d) eqn:Ht in |- *; [apply Hskip; reflexivity|].
+      destruct (dseen (n_cache nd) _); [apply Hskip; reflexivity|].
+      cbn [m_height].
+      destruct (h_height (sh_hdr sh0) <=? d_height (n_disk nd)); [apply Hskip; reflexivity|].
+      apply Hloop. rewrite Hh. eapply cache_ok_set_data; eauto.
+  Qed.
+
+  Lemma Good_of nd j j' files0 :
+    Inv nd j' -> fixp (n_cache nd) (n_disk nd) ->
+    (Distinct -> seen_ok (n_cache nd) j') -> n_files nd = files0 -> (j <= j')%nat ->
+    (Distinct -> seen_ok files0 j) -> Good nd j'.
+  Proof.
+    intros HI Hfx Hs Ef Hle Hsf. split; [exact HI|]. split; [exact Hfx|].
+    intros HD. split; [auto|]. rewrite Ef. eapply seen_ok_mono; eauto.
+  Qed.
+
+  (* any step at all keeps the node good and never lowers the applied prefix *)
+  Lemma step_good nd j i :
+    Good nd j -> item_in C i -> exists j', (j <= j')%nat /\ Good (step exec g nd i) j'.
+  Proof.
+    intros (HI & Hfx & Hseen) Hin. pose proof HI as (Hst & Hcore & Hc & Hf).
+    destruct i as [e| |e q|q]; cbn [step].
+    - destruct (process_good nd j e HI Hin) as (j' & (Hle & HI' & _ & Hfx' & _ & Hs') & Ef & _).
+      exists j'. split; [exact Hle|].
+      eapply (Good_of _ j j'); eauto. intros HD. apply Hs'; [exact HD|]. apply Hseen; exact HD.
+      intros HD. apply Hseen; exact HD.
+    - unfold restart_files. rewrite Hst.
+      destruct (boot_good j (n_disk nd) (n_cache nd) (n_log nd) (core_pre _ _ _ Hcore) Hc)
+        as (j' & Hle & HI' & Ef & Hfx' & _ & Hs' & _).
+      exists j'. split; [exact Hle|].
+      eapply (Good_of _ j j'); eauto. intros HD. apply Hs'; [exact HD|]. apply Hseen; exact HD.
+      intros HD. apply Hseen; exact HD.
+    - destruct (boot_good j _ (n_files nd) (n_log nd) (process_pre nd j e q HI Hin) Hf)
+        as (j' & Hle & HI' & Ef & Hfx' & _ & Hs' & _).
+      exists j'. split; [exact Hle|].
+      eapply (Good_of _ j j'); eauto. intros HD. apply Hs'; [exact HD|]. apply Hseen; exact HD.
+      intros HD. apply Hseen; exact HD.
+    - destruct (boot_good j _ (n_files nd) (n_log nd) (boot_crash _ _ _ (n_files nd) (n_log nd) q Hcore Hf) Hf)
+        as (j' & Hle & HI' & Ef & Hfx' & _ & Hs' & _).
+      exists j'. split; [exact Hle|].
+      eapply (Good_of _ j j'); eauto. intros HD. apply Hs'; [exact HD|]. apply Hseen; exact HD.
+      intros HD. apply Hseen; exact HD.
+  Qed.
+
+  Lemma run_good h : forall nd j,
+    Good nd j -> Forall (item_in C) h -> exists j', (j <= j')%nat /\ Good (run_from exec g nd h) j'.
+  Proof.
+    induction h as [|i r IH]; intros nd j HG Hall.
+    - exists j. split; [lia|exact HG].
+    - inversion Hall as [|? ? Hi Hr]; subst.
+      destruct (step_good nd j i HG Hi) as (j1 & Hle1 & HG1).
+      destruct (IH _ _ HG1 Hr) as (j2 & Hle2 & HG2). exists j2. split; [lia|exact HG2].
+  Qed.
+
+  Lemma boot_empty :
+    exists ws, boot_writes g [] = Some (s0, ws) /\ core (apply_writes [] ws) s0 O.
+  Proof.
+    pose proof init_pos as Hi. unfold boot_writes. cbn [d_state kv_get genesis_state s_height d_height].
+    eexists. split; [reflexivity|].
+    unfold core, synced_to.
+    destruct (N.leb_spec (g_initial g - 1) 0); cbn; repeat split; auto; try lia; try (intros i Hlt; lia);
+      try (destruct C; reflexivity).
+  Qed.
+
+  Lemma seen_ok_empty j : seen_ok empty_cache j.
+  Proof. split; intros; discriminate. Qed.
+
+  Lemma init_good : Good (init exec g) O /\ n_log (init exec g) = [].
+  Proof.
+    destruct boot_empty as (ws & E & Hc0).
+    assert (Hpre : pre_core O []) by (exists s0, ws, O; auto).
+    unfold init.
+    destruct (boot_good O [] empty_cache [] Hpre cache_ok_empty)
+      as (j' & _ & HI & Ef & Hfx & _ & Hs & Hlog).
+    assert (j' = O).
+    { destruct HI as (_ & Hcj & _). revert Hcj. unfold boot. rewrite E.
+      cbn [try_sync empty_cache c_hdrs length lookup fst n_disk n_last l_disk l_last].
+      intros Hcj. exact (core_unique _ _ _ _ _ Hcj Hc0). }
+    subst j'. split.
+    - eapply (Good_of _ O O); eauto. intros HD. apply Hs; [exact HD|apply seen_ok_empty].
+      intros _. apply seen_ok_empty.
+    - rewrite (Hlog s0 ws O E Hc0 []); destruct C; reflexivity.
+  Qed.
+
+  (* ---- clean histories: log and effects of the delivered events ---------------------------------- *)
+  Lemma step_clean nd j i :
+    Good nd j -> item_in C i -> is_clean i = true ->
+    exists j', (j <= j')%nat /\ Good (step exec g nd i) j' /\
+      (forall L, n_log nd = L ++ calls j -> n_log (step exec g nd i) = L ++ calls j') /\
+      keeps (n_cache nd) j (n_cache (step exec g nd i)) j' /\
+      (Distinct -> match i with IEv e => effect e (n_cache (step exec g nd i)) j' | _ => True end).
+  Proof.
+    intros (HI & Hfx & Hseen) Hin Hcl. pose proof HI as (Hst & Hcore & Hc & Hf).
+    destruct i as [e| |e q|q]; try discriminate Hcl; cbn [step].
+    - destruct (process_good nd j e HI Hin) as (j' & (Hle & HI' & Hlog & Hfx' & Hk & Hs') & Ef & Heff).
+      exists j'. split; [exact Hle|]. split; [|split; [exact Hlog|split; [exact Hk|]]].
+      + eapply (Good_of _ j j'); eauto. intros HD. apply Hs'; [exact HD|]. apply Hseen; exact HD.
+        intros HD. apply Hseen; exact HD.
+      + intros HD. apply Heff; [exact HD|]. apply Hseen; exact HD.
+    - unfold restart_files. rewrite Hst.
+      destruct (boot_good j (n_disk nd) (n_cache nd) (n_log nd) (core_pre _ _ _ Hcore) Hc)
+        as (j' & Hle & HI' & Ef & Hfx' & Hk & Hs' & Hlog).
+      exists j'. split; [exact Hle|]. split; [|split; [|split; [exact Hk|auto]]].
+      + eapply (Good_of _ j j'); eauto. intros HD. apply Hs'; [exact HD|]. apply Hseen; exact HD.
+        intros HD. apply Hseen; exact HD.
+      + destruct (boot_core _ _ _ Hcore) as (s & ws & E & Hc' & _). intros L HL. exact (Hlog s ws j E Hc' L HL).
+  Qed.
+
+  Lemma run_clean h : forall nd j,
+    Good nd j -> Forall (item_in C) h -> forallb is_clean h = true ->
+    exists j', (j <= j')%nat /\ Good (run_from exec g nd h) j' /\
+      (forall L, n_log nd = L ++ calls j -> n_log (run_from exec g nd h) = L ++ calls j') /\
+      keeps (n_cache nd) j (n_cache (run_from exec g nd h)) j' /\
+      (Distinct -> forall e, In (IEv e) h -> effect e (n_cache (run_from exec g nd h)) j').
+  Proof.
+    induction h as [|i r IH]; intros nd j HG Hall Hcl.
+    - exists j. cbn. split; [lia|]. split; [exact HG|]. split; [auto|]. split; [apply keeps_refl|]. intros _ e [].
+    - inversion Hall as [|? ? Hi Hr]; subst. cbn [forallb] in Hcl. apply andb_true_iff in Hcl as [Hc1 Hc2].
+      destruct (step_clean nd j i HG Hi Hc1) as (j1 & Hle1 & HG1 & Hlog1 & Hk1 & He1).
+      destruct (IH _ _ HG1 Hr Hc2) as (j2 & Hle2 & HG2 & Hlog2 & Hk2 & He2).
+      exists j2. cbn [run_from fold_left]. split; [lia|]. split; [exact HG2|].
+      split; [intros L HL; apply Hlog2; apply Hlog1; exact HL|].
+      split; [eapply keeps_trans; eauto|].
+      intros HD e [E|Hin].
+      + subst i. eapply effect_keeps; [exact Hk2|]. exact (He1 HD).
+      + exact (He2 HD e Hin).
+  Qed.
+
+  (* everything delivered (or already applied) up to m has been applied *)
+  Lemma progress_end nd j m :
+    Good nd j -> (m <= length C)%nat ->
+    (forall i sh d, (i < m)%nat -> nth_error C i = Some (sh, d) ->
+        hv_h (n_cache nd) j i sh /\ hv_d (n_cache nd) j i d) ->
+    (m <= j)%nat.
+  Proof.
+    intros ((_ & Hcore & _) & Hfx & _) Hm Hall.
+    destruct (Nat.le_gt_cases m j) as [|Hlt]; [assumption|exfalso].
+    assert (Hj : (j < length C)%nat) by lia.
+    apply nth_error_Some in Hj. destruct (nth_error C j) as [[sh d]|] eqn:Hn; [|congruence].
+    destruct (Hall j sh d Hlt Hn) as ([A|A] & [B|B]); try lia.
+    destruct Hcore as (_ & Hh & _). cbn [n_disk] in Hh. pose proof init_pos.
+    unfold fixp in Hfx.
+    replace (d_height (n_disk nd) + 1) with (g_initial g + N.of_nat j) in Hfx by lia.
+    destruct Hfx as [F|F]; congruence.
+  Qed.
 End Safety.
+
+Lemma is_empty_spec x : is_empty_commitment x = true <-> x = [].
+Proof. destruct x; cbn; split; intros H; try reflexivity; discriminate. Qed.
+
+Lemma distinctb_Distinct C : distinct_commitmentsb C = true ->
+  forall i i' b b', nth_error C i = Some b -> nth_error C i' = Some b' ->
+    d_txs (snd b) = d_txs (snd b') -> d_txs (snd b) <> [] -> i = i'.
+Proof.
+  induction C as [|c C IH]; intros HD i i' b b' H1 H2 E Hne; [destruct i; discriminate|].
+  cbn [distinct_commitmentsb] in HD. apply andb_true_iff in HD as [Hhd Htl].
+  assert (Hclash : forall x y n, nth_error C n = Some y -> d_txs (snd x) = d_txs (snd y) ->
+                     d_txs (snd x) <> [] -> x = c -> False).
+  { intros x y n Hn Exy Hx ->. apply orb_true_iff in Hhd as [Hhd|Hhd].
+    - apply is_empty_spec in Hhd. auto.
+    - apply negb_true_iff in Hhd.
+      assert (existsb (fun b' => commitment_eqb (d_txs (snd c)) (d_txs (snd b'))) C = true).
+      { apply existsb_exists. exists y. split; [eapply nth_error_In; eauto|]. rewrite Exy. apply commitment_eqb_refl. }
+      congruence. }
+  destruct i as [|i], i' as [|i']; cbn in H1, H2.
+  - reflexivity.
+  - inversion H1; subst. exfalso. eapply (Hclash b b'); eauto.
+  - inversion H2; subst. exfalso. eapply (Hclash b' b); eauto. congruence.
+  - f_equal. eapply IH; eauto.
+Qed.
+
+(* ---- C02: safety and monotonicity, all chains, all clean histories ------------------------------- *)
+Theorem safety exec g k C h :
+  ChainValid exec g k C -> Forall (item_in C) h -> forallb is_clean h = true ->
+  n_status (run exec g h) = Running /\
+  exists j, synced_to exec g C (run exec g h) j /\
+            n_log (run exec g h) = calls_after exec (genesis_state g) C j.
+Proof.
+  intros HV Hall Hcl. destruct (init_good exec g k C HV) as (HG & Hl).
+  destruct (run_clean exec g k C HV h _ O HG Hall Hcl) as (j & _ & ((Hst & Hcore & _) & _) & Hlog & _).
+  split; [exact Hst|]. exists j. split; [apply (synced_core exec g C); exact Hcore|].
+  apply (Hlog []). rewrite Hl. destruct C; reflexivity.
+Qed.
+
+(* the applied prefix never shrinks — for every history, crashes included *)
+Theorem monotone exec g k C h1 h2 :
+  ChainValid exec g k C -> Forall (item_in C) (h1 ++ h2) ->
+  exists j1 j2, (j1 <= j2)%nat /\ synced_to exec g C (run exec g h1) j1 /\ synced_to exec g C (run exec g (h1 ++ h2)) j2.
+Proof.
+  intros HV Hall. apply Forall_app in Hall as (Ha1 & Ha2).
+  destruct (init_good exec g k C HV) as (HG & _).
+  destruct (run_good exec g k C HV h1 _ O HG Ha1) as (j1 & _ & HG1).
+  destruct (run_good exec g k C HV h2 _ j1 HG1 Ha2) as (j2 & Hle & HG2).
+  exists j1, j2. split; [exact Hle|].
+  unfold run, run_from in *. rewrite fold_left_app.
+  destruct HG1 as ((_ & Hk1 & _) & _). destruct HG2 as ((_ & Hk2 & _) & _).
+  split; apply (synced_core exec g C); assumption.
+Qed.
+
+(* ---- C05: recovery, all chains, all histories with crashes anywhere -------------------------------- *)
+Theorem recovery exec g k C h :
+  ChainValid exec g k C -> Forall (item_in C) h -> recovered exec g C (run exec g h).
+Proof.
+  intros HV Hall. destruct (init_good exec g k C HV) as (HG & _).
+  destruct (run_good exec g k C HV h _ O HG Hall) as (j & _ & ((Hst & Hcore & _) & _)).
+  split; [exact Hst|]. exists j. apply (synced_core exec g C). exact Hcore.
+Qed.
+
+(* ---- completeness / progress after any past (C02 with h1 = [], C05 with crashes in h1) ------------ *)
+Theorem progress exec g k C h1 h2 m :
+  ChainValid exec g k C -> Forall (item_in C) (h1 ++ h2) -> forallb is_clean h2 = true ->
+  distinct_commitmentsb C = true -> (m <= length C)%nat ->
+  (forall i b, (i < m)%nat -> nth_error C i = Some b ->
+     g_initial g + N.of_nat i <= d_height (n_disk (run exec g h1)) \/ header_delivered h2 b) ->
+  (forall i b, (i < m)%nat -> nth_error C i = Some b -> d_txs (snd b) <> [] ->
+     g_initial g + N.of_nat i <= d_height (n_disk (run exec g h1)) \/ data_delivered h2 b) ->
+  g_initial g + N.of_nat m - 1 <= d_height (n_disk (run exec g (h1 ++ h2))).
+Proof.
+  intros HV Hall Hcl HDb Hm Hhd Hdd. apply Forall_app in Hall as (Ha1 & Ha2).
+  pose proof (distinctb_Distinct C HDb) as HD.
+  destruct (init_good exec g k C HV) as (HG & _).
+  destruct (run_good exec g k C HV h1 _ O HG Ha1) as (j1 & _ & HG1).
+  destruct (run_clean exec g k C HV h2 _ j1 HG1 Ha2 Hcl) as (j2 & Hle & HG2 & _ & _ & Heff).
+  unfold run, run_from in *. rewrite fold_left_app.
+  set (nd1 := fold_left (step exec g) h1 (init exec g)) in *.
+  set (nd2 := fold_left (step exec g) h2 nd1) in *.
+  assert (Hh1 : d_height (n_disk nd1) = g_initial g + N.of_nat j1 - 1).
+  { destruct HG1 as ((_ & (_ & Hh & _) & _) & _). exact Hh. }
+  assert (Hh2 : d_height (n_disk nd2) = g_initial g + N.of_nat j2 - 1).
+  { destruct HG2 as ((_ & (_ & Hh & _) & _) & _). exact Hh. }
+  pose proof (init_pos exec g k C HV) as Hi.
+  assert (Hmj : (m <= j2)%nat).
+  { apply (progress_end exec g k C HV nd2 j2 m HG2 Hm).
+    intros i sh d Hlt Hn.
+    assert (Hhv : hv_h g (n_cache nd2) j2 i sh /\ (d_txs d = [] -> hv_d g (n_cache nd2) j2 i d)).
+    { destruct (Hhd i (sh, d) Hlt Hn) as [Hap|(da & Hin)].
+      - split; [left; lia|intros _; left; lia].
+      - exact (Heff HD _ Hin i d Hn). }
+    destruct Hhv as (A & B). split; [exact A|].
+    destruct (d_txs d) eqn:Ht; [apply B; reflexivity|].
+    assert (Hne : d_txs (snd (sh, d)) <> []) by (cbn; rewrite Ht; discriminate).
+    destruct (Hdd i (sh, d) Hlt Hn Hne) as [Hap|(da & Hin)].
+    - left; lia.
+    - apply (Heff HD _ Hin i sh Hn). cbn in Hne. exact Hne. }
+  rewrite Hh2. lia.
+Qed.
+
+(* completeness as C02 words it, under the guard *)
+Theorem complete_partial exec g k C h m :
+  ChainValid exec g k C -> Forall (item_in C) h -> forallb is_clean h = true ->
+  distinct_commitmentsb C = true -> (m <= length C)%nat ->
+  (forall i b, (i < m)%nat -> nth_error C i = Some b -> header_delivered h b) ->
+  (forall i b, (i < m)%nat -> nth_error C i = Some b -> d_txs (snd b) <> [] -> data_delivered h b) ->
+  g_initial g + N.of_nat m - 1 <= d_height (n_disk (run exec g h)).
+Proof.
+  intros HV Hall Hcl HD Hm Hh Hd.
+  apply (progress exec g k C [] h m HV Hall Hcl HD Hm).
+  - intros i b Hlt Hn. right. exact (Hh i b Hlt Hn).
+  - intros i b Hlt Hn Hne. right. exact (Hd i b Hlt Hn Hne).
+Qed.
+
+(* ---- concrete chains for witnesses and non-vacuity examples ------------------------------------ *)
+Definition ex_exec : root -> N -> Z -> list tx -> root :=
+  fun r n _ txs => r * 7 + n + N.of_nat (length txs).
+Definition ex_g (initial : N) : config :=
+  {| g_chain := 1; g_initial := initial; g_time := 100%Z; g_proposer := Addr 1; g_initroot := 5 |}.
+(* what the proposer with key 1 builds from a list of (transactions, time) *)
+Fixpoint ex_build (prev : option header) (n : N) (r : root) (l : list (list tx * Z)) : list block :=
+  match l with
+  | [] => []
+  | (txs, t) :: l' =>
+      let h := {| h_height := n; h_time := t; h_chain := 1; h_last := prev; h_data := txs; h_app := r;
+                  h_proposer := Addr 1 |} in
+      ({| sh_hdr := h; sh_sig := Sig 1 h; sh_signer := {| sg_pub := Some (Pub 1); sg_addr := Addr 1 |} |},
+       {| d_meta := Some {| m_chain := 1; m_height := n; m_time := t |}; d_txs := txs |})
+      :: ex_build (Some h) (n + 1) (ex_exec r n t txs) l'
+  end.
+Definition ex_chain (initial : N) (l : list (list tx * Z)) : list block := ex_build None initial 5 l.
+Definition evh (C : list block) (i : nat) (da : N) : item :=
+  IEv (EvHeader (fst (nth i C (genesis_block (ex_g 1)))) da).
+Definition evd (C : list block) (i : nat) (da : N) : item :=
+  IEv (EvData (snd (nth i C (genesis_block (ex_g 1)))) da).
+
+Ltac solve_in := cbn; repeat (first [left; reflexivity | right]).
+Ltac chain_valid := split; [cbn; lia|split; [reflexivity|vm_compute; reflexivity]].
+
+(* F2 (still open): blocks 2 and 3 carry the same non-empty transaction list *)
+Definition f2_chain := ex_chain 1 [([], 100%Z); ([7], 101%Z); ([7], 102%Z)].
+Definition f2_hist := [evh f2_chain 0 1; evh f2_chain 1 1; evd f2_chain 1 1; evh f2_chain 2 1; evd f2_chain 2 1].
+
+Lemma complete_refuted :
+  exists exec g k C h m,
+    ChainValid exec g k C /\ Forall (item_in C) h /\ forallb is_clean h = true /\ (m <= length C)%nat /\
+    (forall i b, (i < m)%nat -> nth_error C i = Some b -> header_delivered h b) /\
+    (forall i b, (i < m)%nat -> nth_error C i = Some b -> d_txs (snd b) <> [] -> data_delivered h b) /\
+    d_height (n_disk (run exec g h)) < g_initial g + N.of_nat m - 1.
+Proof.
+  exists ex_exec, (ex_g 1), 1, f2_chain, f2_hist, 3%nat.
+  split; [chain_valid|].
+  split; [repeat constructor; cbn; eexists; solve_in|].
+  split; [reflexivity|]. split; [cbn; lia|].
+  split; [|split].
+  - intros i b Hi Hn. destruct i as [|[|[|i]]]; try lia; inversion Hn; subst; exists 1; solve_in.
+  - intros i b Hi Hn Hne. destruct i as [|[|[|i]]]; try lia; inversion Hn; subst.
+    + exfalso. apply Hne. reflexivity.
+    + exists 1; solve_in.
+    + exists 1; solve_in.
+  - vm_compute. reflexivity.
+Qed.
+
+(* the witness violates exactly the guard of complete_partial *)
+Lemma complete_refuted_guard : distinct_commitmentsb f2_chain = false.
+Proof. vm_compute. reflexivity. Qed.
